@@ -104,6 +104,7 @@ struct Env<'a> {
     index: usize,
     pre: &'a crate::util::StateMap,
     strict: bool,
+    short: bool,
     overlay: Option<&'a Overlay>,
     log: RefCell<Vec<Rec>>,
 }
@@ -116,7 +117,12 @@ impl RefEnv for Env<'_> {
         self.index
     }
     fn key_range(&self, post: bool, contract: [u8; 32], key: &[W], n: usize) -> Result<Vec<Vec<W>>, String> {
-        let pre = |c: [u8; 32], k: &[W], n: usize| crate::util::map_key_range(self.pre, self.strict, c, k, n);
+        let pre = |c: [u8; 32], k: &[W], n: usize| {
+            if self.short && !self.pre.keys().any(|(kc, _)| *kc == c) {
+                return Ok(vec![]);
+            }
+            crate::util::map_key_range(self.pre, self.strict, c, k, n)
+        };
         if post {
             match self.overlay {
                 // the reference never lets a non-deferred node read post state
@@ -175,6 +181,7 @@ pub fn eval_pass(
     index: usize,
     pre: &crate::util::StateMap,
     strict: bool,
+    short: bool,
     overlay: Option<&Overlay>,
 ) -> SolPass {
     let mut r = SolPass::default();
@@ -183,7 +190,7 @@ pub fn eval_pass(
         return r;
     }
     let order = g.topo().unwrap();
-    let env = Env { sols, index, pre, strict, overlay, log: RefCell::new(vec![]) };
+    let env = Env { sols, index, pre, strict, short, overlay, log: RefCell::new(vec![]) };
     for &i in &order {
         if deferred.contains(&i) != checks_pass {
             continue;
@@ -328,7 +335,7 @@ pub fn reference(case: &CkCase, b: &Built) -> RefRun {
     for (si, s) in case.sols.iter().enumerate() {
         let g = &graphs[s.pred];
         let d = if g.invalid() { BTreeSet::new() } else { deferred_set(g, &b.node_ops[s.pred]) };
-        let r = eval_pass(g, &b.node_ops[s.pred], &d, false, &mut caches[si], sols, si, &b.pre, case.strict, None);
+        let r = eval_pass(g, &b.node_ops[s.pred], &d, false, &mut caches[si], sols, si, &b.pre, case.strict, case.short, None);
         if let Some(w) = r.unspecified {
             unspecified = Some(w);
         }
@@ -402,7 +409,7 @@ pub fn reference(case: &CkCase, b: &Built) -> RefRun {
     let mut p2 = vec![];
     for (si, s) in case.sols.iter().enumerate() {
         let g = &graphs[s.pred];
-        let r = eval_pass(g, &b.node_ops[s.pred], &deferred[si], true, &mut caches[si], sols, si, &b.pre, case.strict, Some(&overlay));
+        let r = eval_pass(g, &b.node_ops[s.pred], &deferred[si], true, &mut caches[si], sols, si, &b.pre, case.strict, case.short, Some(&overlay));
         if let Some(w) = r.unspecified {
             unspecified = Some(w);
         }
